@@ -243,6 +243,8 @@ class SegmentWorld(World):
         elif k in ('setidx_view', 'insert_view'):
             target = el.children.indexes[op[2]][op[3]]
             j = [id(c) for c in el.children.list].index(id(target))
+            if (j + len(el.children.list) + len(op[4])) % 2:
+                j -= len(el.children.list)        # the same place counted from the end, as list.insert / list[j] count it
             if k == 'setidx_view':
                 self.guard(lambda: el.children.__setitem__(j, op[4]))
             else:
@@ -691,7 +693,7 @@ FAULTS = ('f_wrong_class', 'f_wrong_name', 'f_foreign_elem', 'f_level_add', 'f_l
           'f_children_moved_then_bad', 'f_stale_handle_badvalue', 'f_proxy_wrongtype_value', 'f_value_other_datatype_object')
 WILD = ('w_reattach', 'w_add_twice', 'w_set_own', 'w_read', 'w_parent_ctor', 'w_del_view', 'w_pop', 'w_children_assign',
         'w_value', 'w_setitem_view', 'w_deep_write', 'w_detached_readd', 'w_parent_assign', 'w_insert_view',
-        'w_dtobject', 'w_setitem_view_elem', 'w_read_beyond', 'w_unnamed_component_value')
+        'w_dtobject', 'w_setitem_view_elem', 'w_read_beyond', 'w_unnamed_component_value', 'w_unnamed_component_retype')
 
 
 class Skip(Exception):
@@ -1053,6 +1055,8 @@ def apply_wild(world, op):
         world.detached.append(offered)
         lo = 1 if world.kind == 'message' else 0
         j = lo + i % (len(el.children) - lo + 1)
+        if i % 2 and j < len(el.children):
+            j -= len(el.children)                 # the same place counted from the end
         G(lambda: el.children.insert(j, offered))
     elif k == 'w_setitem_view_elem':
         # children[j] = <element of the same name> replaces the j-th child
@@ -1095,6 +1099,26 @@ def apply_wild(world, op):
         world.detached.append(fld)
         G(lambda: setattr(comp, 'value', 'a' + world.chars()['SUBCOMPONENT'] + 'b'))
         if fld.children.list:
+            G(lambda: fld.children.remove(fld.children.list[0]))
+    elif k == 'w_unnamed_component_retype':
+        # a component created without a name (it is called after its datatype), attached to a field without a name, is given
+        # its final datatype while still empty (TOLERANT), then a value, then removed: the list and the name index of the
+        # field stay in agreement all along
+        if world.level != 2:
+            raise Skip()
+        core = world.core if hasattr(world, 'core') else __import__('hl7apy.core', fromlist=['core'])
+        kw = {'version': world.version, 'validation_level': 2}
+        seg = core.Segment('ZIN', **kw)
+        fld = core.Field(**kw)
+        comp = core.Component(datatype='ST', **kw)
+        world.detached.append(seg)
+        G(lambda: seg.add(fld))
+        G(lambda: fld.add(comp))
+        dts = [d for d in ('CE', 'CWE', 'HD', 'CX', 'NM', 'ID') if d in tables.complex_datatypes(world.version) or
+               tables.is_base(world.version, d)]
+        G(lambda: setattr(comp, 'datatype', dts[i % len(dts)]))
+        G(lambda: setattr(comp, 'value', 'x'))
+        if i % 2 and fld.children.list:
             G(lambda: fld.children.remove(fld.children.list[0]))
     elif k == 'w_reattach':
         src = reps(other)
